@@ -31,12 +31,13 @@ case $T in
 rt|all)
   build_engine
   build_lib "" ""
-  for f in $V/harness/rt_ops.c $V/harness/rt_table.c $V/harness/rt_h_*.c; do
+  for f in $V/harness/rt_ops.c $V/harness/rt_table.c $V/harness/rt_h_*.c $V/harness/ds_*.c; do
     run $CC $INSTR $DEFS $INC $WARN -c $f -o $OUT/$(basename $f .c).o
   done
   run $CC -std=gnu11 -O1 -g -fno-builtin $DEFS $INC $WARN -c $V/harness/rt_core.c -o $OUT/rt_core.o
+  run $CC -std=gnu11 -O2 -g -fno-builtin $INC $WARN -c $V/engine/lin.c -o $OUT/lin.o
   waitall
-  $CC -g -no-pie -o $OUT/runner_rt $OUT/rt_core.o $OUT/rt_ops.o $OUT/rt_table.o $OUT/rt_h_*.o $OUT/lib/*.o $OUT/vsched.o -ldl -lm
+  $CC -g -no-pie -o $OUT/runner_rt $OUT/rt_core.o $OUT/rt_ops.o $OUT/rt_table.o $OUT/rt_h_*.o $OUT/ds_*.o $OUT/lin.o $OUT/lib/*.o $OUT/vsched.o -ldl -lm
   ;;&
 esac
 echo "build ok: $T"
